@@ -1,5 +1,6 @@
 import SaModel.Props.C01Dict
 import SaModel.Props.C01CompleteObs
+import SaModel.Lemmas.C03ObsTotalW
 /-
 C01 — completeness on `coveredWF` (wave 10, package `dict`): `runRows_complete'` / `toMarrow_complete'` /
 `toMarrow_complete_decode'` with `coveredF` weakened.
@@ -12,6 +13,9 @@ C01 — completeness on `coveredWF` (wave 10, package `dict`): `runRows_complete
                                 invariant under `take`); it cannot be dropped: `Lemmas.C03.placeholder_binary_fails`, and on the
                                 crate `to_marrow([s: Struct{d: Dictionary(UInt32, Binary)}?], [{s: None}])` is refused
   toMarrow_complete_decode''    … and then the arrays are what `C01_build_decode''` says
+  toMarrow_complete_schema''    the same with `PlaceholderStr root0` replaced by the Boolean schema predicate
+                                `fields.all placeholderStrF` (Lemmas/C03ObsTotalW.lean: an integer-keyed dictionary is nullable or has
+                                a Utf8 / LargeUtf8 / Utf8View value type), and `newRoot fields = ok root0` only as the source of `room`
 -/
 namespace SaModel.Props.C01
 open SaModel SaModel.Build SaModel.Spec
@@ -72,6 +76,24 @@ theorem toMarrow_complete_decode'' (ext : Ext) (fields : List Field) (rows : Lis
   exact ⟨arrs, h, C01_build_decode'' ext fields rows arrs hschema hc (fun x hx => noRaw_ssa x (hrows x hx).1)
     (Or.inl fun x hx => (hrows x hx).1) h⟩
 
+/-- **`to_marrow` is complete on `coveredWF` ∧ `placeholderStrF`** — both decidable on the schema -/
+theorem toMarrow_complete_schema'' (ext : Ext) (fields : List Field) (rows : List SVal) (root0 : B)
+    (hschema : ∀ f ∈ fields, Lemmas.C03.SchemaOKF f)
+    (hc : fields.all coveredWF = true) (hph : fields.all Lemmas.C03.placeholderStrF = true)
+    (h0 : newRoot fields = .ok root0)
+    (htot : totalFs (Fields.ofList fields) = true)
+    (htyped : Lemmas.C03.typedFs (Fields.ofList fields) = true)
+    (hrows : ∀ r ∈ rows, noRaw r = true ∧ ∃ lv, interpRow ext fields r = .ok lv)
+    (hcap : (rows.map (vsize ext)).sum ≤ room root0) :
+    ∃ arrs, toMarrow ext fields rows = .ok arrs ∧ arrs.length = fields.length ∧
+      ∃ cols : List (String × List LVal),
+        arrs.map decodeAll = cols.map (fun c => c.2.map .ok) ∧ cols.map (·.1) = fields.map (·.name) ∧
+        (∀ c ∈ cols, c.2.length = rows.length) ∧
+        ∀ (i : Nat) (hi : i < rows.length),
+          interpRow ext fields rows[i] = .ok (.struct (LFields.ofList (cols.map fun c => (c.1, c.2.getD i .null)))) :=
+  toMarrow_complete_decode'' ext fields rows root0 hschema hc h0 (Lemmas.C03.newRoot_PlaceholderStrW hph h0) htot htyped
+    hrows hcap
+
 /-- the former statement is the special case (`coveredF` gives both `coveredWF` and `PlaceholderStr`) -/
 theorem toMarrow_complete'_of'' (ext : Ext) (fields : List Field) (rows : List SVal) (root0 : B)
     (hc : fields.all coveredF = true) (h0 : newRoot fields = .ok root0)
@@ -100,6 +122,29 @@ def exDictNullRoot : B :=
       ⟨"l", false, []⟩ .nil)) [none, none] 0 [false, false]
 
 theorem exDictNullRoot_eq : newRoot exDictNullFields = .ok exDictNullRoot := by decide
+
+/-- the schema predicate: true of the example (nullable refusing dictionary, non-nullable string dictionary), false of a
+NON-nullable refusing dictionary, true again of a non-nullable Utf8View dictionary -/
+example : exDictNullFields.all Lemmas.C03.placeholderStrF = true ∧
+    Lemmas.C03.placeholderStrF (.mk "d" (.dictionary .int8 .int32) false []) = false ∧
+    Lemmas.C03.placeholderStrF (.mk "d" (.dictionary .int8 .utf8View) false []) = true := by decide +kernel
+
+/-- every hypothesis of `toMarrow_complete_schema''` discharged -/
+example : ∃ arrs, toMarrow {} exDictNullFields exDictNullRows = .ok arrs ∧ arrs.length = exDictNullFields.length ∧
+    ∃ cols : List (String × List LVal),
+      arrs.map decodeAll = cols.map (fun c => c.2.map .ok) ∧ cols.map (·.1) = exDictNullFields.map (·.name) ∧
+      (∀ c ∈ cols, c.2.length = exDictNullRows.length) ∧
+      ∀ (i : Nat) (hi : i < exDictNullRows.length),
+        interpRow {} exDictNullFields exDictNullRows[i] =
+          .ok (.struct (LFields.ofList (cols.map fun c => (c.1, c.2.getD i .null)))) := by
+  refine toMarrow_complete_schema'' {} exDictNullFields exDictNullRows exDictNullRoot ?_ (by decide +kernel)
+    (by decide +kernel) exDictNullRoot_eq (by decide +kernel) (by decide +kernel) ?_ (by decide +kernel)
+  · simp [exDictNullFields, Lemmas.C03.SchemaOKF, Lemmas.C03.SchemaOK, Lemmas.C03.SchemaOKFs]
+  · intro r hr
+    simp only [exDictNullRows, List.mem_cons, List.not_mem_nil, or_false] at hr
+    rcases hr with rfl | rfl
+    · exact ⟨by decide, ok_of_isOk (by decide +kernel)⟩
+    · exact ⟨by decide, ok_of_isOk (by decide +kernel)⟩
 
 example : exDictNullFields.all coveredWF = true ∧ exDictNullFields.all coveredF = false := by decide +kernel
 
